@@ -19,7 +19,7 @@ import (
 
 func TestMain(m *testing.M) { drv.Main(m) }
 
-const rule = "a generated chain configuration (taker-fee rate and distribution splits incl. burn, mint/incentive epoch identifiers, denom creation fee, CL uptimes) and a generated history of 4..14 blocks on the real application through ABCI (InitChain, FinalizeBlock with signed transactions of 5 accounts and a full commit of the bonded validators, Commit); block intervals of seconds, an hour, a day, a week or up to 25 days so that hour/day/week epochs, unlock/unbonding maturity and gov voting ends occur; 47 message kinds of bank, gamm (balancer, stableswap), poolmanager (multi-hop exact-in/out, split routes), concentrated-liquidity, lockup, incentives, tokenfactory (incl. force transfers touching module accounts), staking, distribution, superfluid, valset-pref and gov, drawn from the leader's committed state; fees in the base denom or in a whitelisted fee token. Oracle: every other fresh node fed the same blocks must return byte-identical ExecTxResults (code, data, log, gas wanted/used, events), block events, validator updates and app hash for every block; a node initialised from the state exported at a generated height and fed the remaining blocks must return the same tx results, block events and validator updates, and its exported genesis must equal the source node's per module one block after the import and at the end of the history. Non-trivial = >= 3 successful transactions of >= 2 modules and at least one block interval >= 1h; distinct by hash of configuration and transaction kinds"
+const rule = "a generated chain configuration (taker-fee rate and distribution splits incl. burn, mint/incentive epoch identifiers, denom creation fee, community-pool swap denom, CL uptimes) and a generated history of 4..24 blocks on the real application through ABCI (InitChain on a fixed-key genesis + deterministic bootstrap, FinalizeBlock with signed transactions of 5 accounts and a full commit of the bonded validators, Commit); block intervals of seconds, an hour, a day, a week or up to 25 days so that hour/day/week epochs, unlock/unbonding maturity and gov voting ends occur; 41 message kinds of bank, gamm (balancer, stableswap), poolmanager (multi-hop exact-in/out, split routes), concentrated-liquidity, lockup, incentives, tokenfactory (incl. force transfers touching module accounts), staking, distribution, superfluid, valset-pref and gov, drawn with weights among the kinds feasible in the leader's committed state; fees in the base denom or in a whitelisted fee token. Oracle: every other fresh node fed the same blocks must return byte-identical ExecTxResults (code, data, log without panic stack traces, gas wanted/used, events), block events, validator updates and app hash for every block; a node initialised (InitChain, all module invariants asserted) from the state exported at a generated height and fed the remaining blocks must return the same tx results (metered gas excepted), block events and validator updates, and its per-module exported genesis and its answers to a fixed list of state queries must equal the source node's one block after the import and at the end of the history. Non-trivial = >= 3 successful transactions of >= 2 modules and at least one block interval >= 1h; distinct by hash of configuration and transaction kinds"
 
 // Plan is a self-contained replayable history.
 type Plan struct {
@@ -368,7 +368,7 @@ func runCase(rt *rapid.T, c *drv.Case) {
 }
 
 func TestPropDeterminism(t *testing.T) {
-	drv.Check(t, drv.Cfg{Name: "determinism+export", Rule: rule, Quick: 60, Thorough: 700}, runCase)
+	drv.Check(t, drv.Cfg{Name: "determinism+export", Rule: rule, Quick: 60, Thorough: 2000}, runCase)
 }
 
 // TestReplayPlan re-executes a saved plan (VERIF_REPLAY_FILE) on fresh nodes several times.
